@@ -379,3 +379,14 @@ def witness_oracle(viol, inp, param):
         return str(inp.get("script", 0)) == seed and viol["aspect"].startswith(aspect)
     return (not inp.get("script") and str(inp.get("gen", 1)) == gen and str(inp.get("seed")) == seed and str(int(bool(inp.get("boards")))) == boards
             and viol["aspect"].startswith(aspect))
+
+
+# ---- C05: the formatter folds the letter case of unquoted keys that are spelled like a reserved keyword ------
+@classifier("c05_keyword_like_key_lower_cased")
+def c05_keyword_key(viol, inp, param):
+    if viol["aspect"] != "string-read-back-differs":
+        return False
+    via, s, back, text = json.loads(viol["detail"])
+    given = "".join(chr(c) for c in s)
+    got = "".join(chr(c) for c in back)
+    return via == "key" and given != given.lower() and got == given.lower() and text == got
